@@ -1123,6 +1123,89 @@ theorem acknowledged_write_survives (n : Nat) (s0 s : St) (h0 : Reach n s0) (hs 
   obtain ⟨k1, k2, k3⟩ := chosen_stable n s0 s h0 hs t o e hch hg
   exact current_leader_holds_acknowledged n s k3 t o e k2 k1 he j hj htj
 
+/-! ### what a single step can do to a node (C04, C05 on A-Repl) -/
+
+/-- terms never go back, whatever the step -/
+theorem term_monotone (s : St) (op : Op) (hp : pre s op) (i : Nat) : s.term i ≤ (next s op).term i := by
+  cases op with
+  | fence j =>
+    have hp : s.term j < s.ct := hp
+    show s.term i ≤ upd s.term j s.ct i
+    by_cases hij : i = j
+    · subst hij; rw [upd_same]; omega
+    · rw [upd_other _ _ _ _ hij]; exact Int.le_refl _
+  | attach l f =>
+    have hnext : (next s (.attach l f)).term = s.term := by
+      show (match plan Cfg.good (s.log l) (headOf (s.log f)) (s.eh (s.term l)) with
+         | .attach _ => ({ s with att := upd s.att f true, ack := setAck s.ack f (s.term l) (s.log f).length } : St)
+         | .truncate k =>
+            { s with log := upd s.log f ((s.log f).take (k + 1).toNat), att := upd s.att f true,
+                     ack := setAck s.ack f (s.term l) ((s.log f).take (k + 1).toNat).length }
+         | .refuse => s).term = s.term
+      cases plan Cfg.good (s.log l) (headOf (s.log f)) (s.eh (s.term l)) <;> rfl
+    rw [hnext]; exact Int.le_refl _
+  | append l f =>
+    have hnext : (next s (.append l f)).term = s.term := by
+      show (match (s.log l)[(s.log f).length]? with
+        | some e => ({ s with log := upd s.log f (s.log f ++ [e]), ack := setAck s.ack f (s.term l) ((s.log f).length + 1) } : St)
+        | none => s).term = s.term
+      cases (s.log l)[(s.log f).length]? <;> rfl
+    rw [hnext]; exact Int.le_refl _
+  | newElection => exact Int.le_refl _
+  | becomeLeader l S => exact Int.le_refl _
+  | write l id => exact Int.le_refl _
+  | restart j => exact Int.le_refl _
+
+/-- **C04 on A-Repl**: the log of a node changes only through its own client write while it leads, or through
+    an attach / append by the node that leads the node's *current* term - after a node has answered a
+    new-term request nothing is taken on behalf of an older term -/
+theorem log_changes_only_in_current_term (s : St) (op : Op) (hp : pre s op) (i : Nat)
+    (hne : (next s op).log i ≠ s.log i) :
+    (∃ id, op = .write i id ∧ s.leading i = true) ∨
+    (∃ l, (op = .attach l i ∨ op = .append l i) ∧ s.leading l = true ∧ s.term l = s.term i) := by
+  cases op with
+  | newElection => exact absurd rfl hne
+  | fence j => exact absurd rfl hne
+  | becomeLeader l S => exact absurd rfl hne
+  | restart j => exact absurd rfl hne
+  | write l id =>
+    have hp : s.leading l = true := hp
+    by_cases hil : i = l
+    · subst hil; exact .inl ⟨id, rfl, hp⟩
+    · exfalso; apply hne
+      show upd s.log l _ i = s.log i
+      rw [upd_other _ _ _ _ hil]
+  | append l f =>
+    obtain ⟨hlead, _, hterm_f, _, _⟩ : s.leading l = true ∧ f ≠ l ∧ s.term f = s.term l ∧ s.att f = true ∧
+        (s.log f).length < (s.log l).length := hp
+    by_cases hif : i = f
+    · subst hif; exact .inr ⟨l, .inr rfl, hlead, hterm_f.symm⟩
+    · exfalso; apply hne
+      show (match (s.log l)[(s.log f).length]? with
+        | some e => ({ s with log := upd s.log f (s.log f ++ [e]), ack := setAck s.ack f (s.term l) ((s.log f).length + 1) } : St)
+        | none => s).log i = s.log i
+      cases (s.log l)[(s.log f).length]? with
+      | none => rfl
+      | some e => show upd s.log f _ i = s.log i; rw [upd_other _ _ _ _ hif]
+  | attach l f =>
+    obtain ⟨hlead, _, hterm_f, _, _, _⟩ :
+        s.leading l = true ∧ f ≠ l ∧ s.term f = s.term l ∧ s.att f = false ∧
+        ¬ d44case (s.log l) (headOf (s.log f)) (s.eh (s.term l)) ∧
+        planOk (s.log f) (plan Cfg.good (s.log l) (headOf (s.log f)) (s.eh (s.term l))) = true := hp
+    by_cases hif : i = f
+    · subst hif; exact .inr ⟨l, .inl rfl, hlead, hterm_f.symm⟩
+    · exfalso; apply hne
+      show (match plan Cfg.good (s.log l) (headOf (s.log f)) (s.eh (s.term l)) with
+         | .attach _ => ({ s with att := upd s.att f true, ack := setAck s.ack f (s.term l) (s.log f).length } : St)
+         | .truncate k =>
+            { s with log := upd s.log f ((s.log f).take (k + 1).toNat), att := upd s.att f true,
+                     ack := setAck s.ack f (s.term l) ((s.log f).take (k + 1).toNat).length }
+         | .refuse => s).log i = s.log i
+      cases plan Cfg.good (s.log l) (headOf (s.log f)) (s.eh (s.term l)) with
+      | refuse => rfl
+      | attach a => rfl
+      | truncate k => show upd s.log f _ i = s.log i; rw [upd_other _ _ _ _ hif]
+
 /-! ### the hypotheses are met by real runs (non-vacuity), and where the envelope ends -/
 
 /-- three nodes; term 1: node 0 leads, 100 is acknowledged by {0, 1, 2}... (here by 0 and 1), 101 stays on the
